@@ -1,0 +1,15 @@
+//go:build verif
+
+package server
+
+// Hover text builders and counters, exposed to the verification harness.
+var (
+	VerifBuildAccountHover  = buildAccountHoverWithTransactions
+	VerifBuildAmountHover   = buildAmountHover
+	VerifBuildPayeeHover    = buildPayeeHoverWithTransactions
+	VerifBuildTagValueHover = buildTagValueHover
+	VerifCountPostings      = countPostingsForAccountInTransactions
+	VerifCountTagUsage      = countTagUsage
+	VerifCountTagValueUsage = countTagValueUsage
+	VerifPayeeOrDescription = getPayeeOrDescription
+)
